@@ -393,8 +393,8 @@ def run_higher(case):
                     X, Mm, flag, iters, true_err = r
                     hyp = p.cond()
                     tol = z3.Real("tolerance")
-                    nanX = uf("any_nan", ARR, z3.BoolSort())(X.v)
-                    infX = uf("any_inf", ARR, z3.BoolSort())(X.v)
+                    nanX = uf("any_nan_float32", ARR, z3.BoolSort())(X.v)
+                    infX = uf("any_inf_float32", ARR, z3.BoolSort())(X.v)
                     goal = z3.And(z3.Not(true_err.at(0) > as_real(1e-1).t), z3.Not(nanX), z3.Not(infX), z3.BoolVal(1 <= iters <= max(it, 1)))
                     out.append(prove(f"{func}/normal-return=>residual-within-guard-and-finite{tag}", func, hyp, goal, model_vars=dict(tolerance=tol), case=case,
                                      replay=dict(kind="higher"), text="a returned result has residual |A X^p - I| <= 0.1 and no NaN/Inf; otherwise ArithmeticError is raised"))
